@@ -16,7 +16,8 @@ SANITIZE = False
 ENUM = True
 
 (DETACH, ASYNC, LOCK_SH, TRY_SH, TRY_SH_FOR, TRY_SH_UNTIL, READ, BOOL, RELEASE, LOAD, FUT_READY, FUT_GET) = range(12)
-NESTED = (12, 13, 14, 15)
+NESTED = (12, 13, 14, 15, 16, 17, 18, 19)      # 16..19: the nested functor re-submits to A itself
+SELF = (16, 17, 18, 19)
 OB = 20
 MAXFID = 15
 MUTEX_KINDS = (K['TRYLOCK'], K['TRYLOCK_FOR'], K['LOCK'], K['LOCK_SH'], K['TRYLOCK_SH'], K['TRYLOCK_SH_FOR'])
@@ -29,7 +30,7 @@ def shcap(cfg):
 def op_obj(code):
     """object (0 = A, 1 = B) and base op code of a top-level operation"""
     if code in NESTED:
-        return 0, (DETACH if code in (12, 13) else ASYNC)
+        return 0, (DETACH if code in (12, 13, 16, 17) else ASYNC)
     if code >= OB:
         return 1, code - OB
     return 0, code
@@ -37,7 +38,27 @@ def op_obj(code):
 
 # ----------------------------------------------------------------------------- generator
 
+def gen_selfnest(rng):
+    """a modification function of A that re-submits to A, queued behind a reader of A and applied by a drain:
+    the inner submission finds A's mutex owned by the drainer, is queued again and applied by a LATER drain"""
+    mk = rng.weighted([(5, 0), (4, 1), (1, 2), (1, 3)])
+    c = rng.pick(SELF)
+    reader = [[LOCK_SH, 0], [READ, 0], [RELEASE, 0], rng.pick([[LOAD], [LOCK_SH, 1], [TRY_SH, 1]]), [LOAD], [LOAD]]
+    sub = [[c, 1, 2] + ([0] if c in (18, 19) else [])]
+    if rng.chance(1, 2):
+        sub.append([LOAD])
+    progs = [reader, sub]
+    if rng.chance(1, 3):
+        progs.append([[DETACH, 3], [LOAD]])
+    nt = len(progs)
+    cw = ((14, 0), (2, 2))
+    sched = [(0, 0)] * 3 + [(1, 0)] * rng.range(5, 8) + R.sched_random(rng, nt, rng.range(0, 100), cw)
+    return {'cfg': [mk], 'progs': progs, 'sched': sched}
+
+
 def gen(rng, tier, spec):
+    if rng.chance(1, 6):
+        return gen_selfnest(rng)
     nt = rng.weighted([(5, 2), (6, 3), (2, 4)])
     mk = rng.weighted([(5, 0), (4, 1), (1, 2), (1, 3)])
     fid = [0]
@@ -74,7 +95,7 @@ def gen(rng, tier, spec):
                     reader(prog, 0, rng.below(2))
             elif r == 'nester' and fid[0] + 2 <= MAXFID:
                 c = rng.pick(NESTED)
-                prog.append([c, nf(), nf()] + ([rng.below(2)] if c in (14, 15) else []))
+                prog.append([c, nf(), nf()] + ([rng.below(2)] if c in (14, 15, 18, 19) else []))
                 if rng.chance(1, 3):
                     prog.append([rng.pick([LOAD, OB + LOAD])])
             elif fid[0] < MAXFID:
@@ -121,10 +142,11 @@ class Walk2:
             for op in p:
                 x, base = op_obj(op[0])
                 if op[0] in NESTED:
-                    objof[op[1]], objof[op[2]] = 0, 1
+                    objof[op[1]], objof[op[2]] = 0, (0 if op[0] in SELF else 1)
                 elif base in (DETACH, ASYNC):
                     objof[op[1]] = x
         nested_outer = {op[1] for p in case['progs'] for op in p if op[0] in NESTED}
+        nested_inner = {op[1]: op[2] for p in case['progs'] for op in p if op[0] in NESTED}
         inner_entered = set()
         outer = [None, None]             # trace id of each object's wrapper mutex
         owner, sharers = {}, {}
@@ -163,8 +185,9 @@ class Walk2:
             elif k in MUTEX_KINDS and stack[t] and stack[t][-1] in nested_outer and stack[t][-1] not in inner_entered:
                 # the first mutex operation of a nested functor after its invocation is the inner call's try-lock of B
                 inner_entered.add(stack[t][-1])
-                if outer[1] is None:
-                    outer[1] = o
+                x = objof.get(nested_inner.get(stack[t][-1]), 1)
+                if outer[x] is None:
+                    outer[x] = o
             if o in outer and o != 0:
                 x = outer.index(o)
                 if k in (K['TRYLOCK'], K['TRYLOCK_FOR'], K['LOCK']) and (k == K['LOCK'] or v == 1):
@@ -259,8 +282,9 @@ def mon_lost(case, lines):
     for x in (0, 1):
         pay, flag, qlen, free, nsh = w.finals[x]
         sub = set(w.submitted[x])
-        if x == 1:
-            sub |= {f for f in inner if outer_of[f] in w.called[0]}     # inner submissions exist once their outer functor ran
+        # inner submissions exist once their outer functor ran
+        selfs = {op[2] for p in case['progs'] for op in p if op[0] in SELF}
+        sub |= {f for f in inner if outer_of[f] in w.called[0] and (f in selfs) == (x == 0)}
         if len(sub) - len(w.called[x] & sub) != qlen:
             return 'finished run, object %s: %d functors submitted, %d applied, %d left in the queue (lost: %s)' % (
                 'AB'[x], len(sub), len(w.called[x]), qlen, sorted(sub - w.called[x]))
@@ -286,5 +310,7 @@ def mon_deadlock(case, lines):
     return None
 
 
-MONITORS = {'fault': mon_fault, 'rw_overlap': mon_rw_overlap, 'exclusive': mon_exclusive, 'twice': mon_twice,
+from comp_deferred import mon_functor_under_list_lock  # noqa: E402
+
+MONITORS = {'functor_under_list_lock': mon_functor_under_list_lock, 'fault': mon_fault, 'rw_overlap': mon_rw_overlap, 'exclusive': mon_exclusive, 'twice': mon_twice,
             'lost': mon_lost, 'deadlock': mon_deadlock}
